@@ -242,7 +242,7 @@ def task_batch(task):
         if big:
             # results larger than one hand-over batch of the engine: always one run under a hard
             # memory limit whose tables are stored in a non-trivial physical layout
-            variants[0] = {"env": {"VTL_MEMORY_LIMIT": "64MB" if (op.get("meta") or {}).get("bigframe") else rng.choice(["256MB", "1GB", "2000000000"]),
+            variants[0] = {"env": {"VTL_MEMORY_LIMIT": rng.choice(["24MB", "32MB"]) if (op.get("meta") or {}).get("bigframe") else rng.choice(["256MB", "1GB", "2000000000"]),
                                    "VTL_USE_IN_MEMORY_DB": rng.choice(["0", "1"])}, "permute": rng.randrange(1, 1 << 30)}
         variants.insert(rng.randrange(len(variants) + 1), {"env": {}})      # a repeated default run somewhere
         if rng.random() < 0.6:                                               # an unrelated run in between
